@@ -1,8 +1,9 @@
 """Implementation side of C02: partial loads through mdtraj's public API on real files.
 
-stdin : {"n_atoms":int, "workers":int, "cases":[case..], "probe_trr":bool}
+stdin : {"workers":int, "cases":[case..], "probe_trr":bool}
         case = {"fmt","kind":"load|load_frame|iterload|load_list","Ts":[T..],"chunk","stride","skip",
-                "frame","ai":[..]|null,"limit":int,"isolate":bool}
+                "frame","ai":[..]|null,"limit":int,"isolate":bool,
+                "n_atoms":int (default 4), "cell":bool (default true: the file carries a unit cell)}
 stdout: last line JSON {"results":[obs..], "probe_trr":{...}}
 
 File j of a case has T = Ts[j] frames with identifiers 10*j .. 10*j+T-1.  Frame id has
@@ -37,7 +38,7 @@ def _alarm(signum, frame):
     raise Timeout()
 
 
-def make_traj(T, base, n_atoms):
+def make_traj(T, base, n_atoms, cell=True):
     top = md.Topology()
     ch = top.add_chain()
     for a in range(n_atoms):
@@ -48,15 +49,19 @@ def make_traj(T, base, n_atoms):
         for a in range(n_atoms):
             xyz[i, a] = ((base + i + 1) * 0.1, (a + 1) * 0.1, 0.05)
     t = md.Trajectory(xyz, top, time=np.arange(base, base + T, dtype=np.float32))
-    t.unitcell_lengths = np.array([[base + i + 2.0] * 3 for i in range(T)], dtype=np.float32)
-    t.unitcell_angles = np.full((T, 3), 90.0, dtype=np.float32)
+    if cell:
+        t.unitcell_lengths = np.array([[base + i + 2.0] * 3 for i in range(T)], dtype=np.float32)
+        t.unitcell_angles = np.full((T, 3), 90.0, dtype=np.float32)
     return t
 
 
-def write_arc(path, T, base, n_atoms):
+def write_arc(path, T, base, n_atoms, cell=False):
     with open(path, "w") as fh:
         for i in range(T):
             fh.write("%6d  frame %d\n" % (n_atoms, base + i))
+            if cell:
+                L = (base + i + 2.0) * 10.0
+                fh.write(" %12.6f %12.6f %12.6f %12.6f %12.6f %12.6f\n" % (L, L, L, 90.0, 90.0, 90.0))
             for a in range(n_atoms):
                 fh.write("%6d  C%d %18.10f %18.10f %18.10f %5d\n" % (a + 1, a, (base + i + 1) * 1.0, (a + 1) * 1.0, 0.5, 1))
 
@@ -64,16 +69,16 @@ def write_arc(path, T, base, n_atoms):
 _made = {}
 
 
-def make_file(fmt, T, base, n_atoms, d):
-    key = (fmt, T, base)
+def make_file(fmt, T, base, n_atoms, d, cell=True):
+    key = (fmt, T, base, n_atoms, cell)
     if key in _made:
         return _made[key]
-    p = os.path.join(d, "f_%d_%d.%s" % (T, base, fmt))
+    p = os.path.join(d, "f_%d_%d_%d_%d.%s" % (T, base, n_atoms, int(cell), fmt))
     if not os.path.exists(p):
         if fmt == "arc":
-            write_arc(p, T, base, n_atoms)
+            write_arc(p, T, base, n_atoms, cell)
         else:
-            make_traj(T, base, n_atoms).save(p)
+            make_traj(T, base, n_atoms, cell).save(p)
     _made[key] = p
     return p
 
@@ -152,21 +157,21 @@ def traj_obs(t, fmt, ai, n_atoms, ref):
 _ref = {}
 
 
-def reference(fmt, T, base, n_atoms, d):
+def reference(fmt, T, base, n_atoms, d, cell=True):
     """time and cell of every frame in the FULL load of the file (the right-hand side of C02)"""
-    key = (fmt, T, base)
+    key = (fmt, T, base, n_atoms, cell)
     if key not in _ref:
-        p = make_file(fmt, T, base, n_atoms, d)
+        p = make_file(fmt, T, base, n_atoms, d, cell)
         kw = {} if ("." + fmt) in TOPEXT else {"top": top_path(n_atoms, d)}
         try:
             t = md.load(p, **kw)
             fo = frame_obs(t, None, n_atoms)
             tm = [int_or(x) for x in t.time]
-            cell = [int_or(x[0] - 2.0) for x in t.unitcell_lengths] if t.unitcell_lengths is not None else None
+            cl = [int_or(x[0] - 2.0) for x in t.unitcell_lengths] if t.unitcell_lengths is not None else None
             r = {}
             for j, (i, _f) in enumerate(fo):
                 if i >= 0:
-                    r[i] = (tm[j], None if cell is None else cell[j])
+                    r[i] = (tm[j], None if cl is None else cl[j])
             _ref[key] = r
         except Exception:
             _ref[key] = None
@@ -174,15 +179,16 @@ def reference(fmt, T, base, n_atoms, d):
 
 
 def run_case(case, d):
-    n_atoms = N_ATOMS
+    n_atoms = int(case.get("n_atoms", N_ATOMS))
+    cell = bool(case.get("cell", True))
     fmt = case["fmt"]
     kind = case["kind"]
     ai = case.get("ai")
     Ts = case["Ts"]
-    paths = [make_file(fmt, T, 10 * j, n_atoms, d) for j, T in enumerate(Ts)]
+    paths = [make_file(fmt, T, 10 * j, n_atoms, d, cell) for j, T in enumerate(Ts)]
     ref = {}
     for j, T in enumerate(Ts):
-        r = reference(fmt, T, 10 * j, n_atoms, d)
+        r = reference(fmt, T, 10 * j, n_atoms, d, cell)
         if r is None:
             ref = None
             break
@@ -310,11 +316,12 @@ def main():
     for c in cases:
         for j, T in enumerate(c["Ts"]):
             try:
-                make_file(c["fmt"], T, 10 * j, N_ATOMS, d)
+                make_file(c["fmt"], T, 10 * j, int(c.get("n_atoms", N_ATOMS)), d, bool(c.get("cell", True)))
             except Exception as e:  # noqa
                 sys.stderr.write("cannot write %s T=%d: %r\n" % (c["fmt"], T, e))
                 continue
-            reference(c["fmt"], T, 10 * j, N_ATOMS, d)
+            reference(c["fmt"], T, 10 * j, int(c.get("n_atoms", N_ATOMS)), d, bool(c.get("cell", True)))
+        top_path(int(c.get("n_atoms", N_ATOMS)), d)
     top_path(N_ATOMS, d)
     results = [None] * len(cases)
     iso = [i for i, c in enumerate(cases) if c.get("isolate")]
